@@ -47,9 +47,15 @@ class Path:
         self.events = []
         self.outcome = None  # ('return', node|None) / ('raise', node|None) / ('fall', None) / ('break',)/('continue',)
         self.loop_depth = 0
+        self.ver = {}        # name -> number of bindings so far (identity of an opaque value)
+        self.decided = {}    # (canonical test text, versions of its names) -> truth value taken on this path
+        self.conds_defs = [] # [(test with opaque locals replaced by the expression they were bound to, polarity)] for name-only tests
 
     def fork(self):
         p = Path()
+        p.ver = dict(self.ver)
+        p.decided = dict(self.decided)
+        p.conds_defs = list(self.conds_defs)
         p.env = dict(self.env)
         p.defs = dict(self.defs)
         p.conds = list(self.conds)
@@ -72,6 +78,18 @@ class Path:
                 continue
             for f in implied(node, pol):
                 out.add(f.key())
+            # a test written on explaining variables only (`if failed:` with failed = status != 0) also states what they stand for
+            if orig and node is not t and isinstance(t, ast.expr) and _names_only(node):
+                for f in implied(t, pol):
+                    out.add(f.key())
+        return out
+
+    def facts_through_defs(self):
+        """facts of the branch conditions, plus - for tests over local names only - the facts of the expressions those names were
+        bound to, also when the expression is a call whose result the name merely remembers (`done = req.write_done(a); if done:`)"""
+        from .cfg import implied
+        out = [f for t, pol, o in self.conds if isinstance(t, ast.expr) for f in implied(t, pol)]
+        out += [f for t, pol in self.conds_defs for f in implied(t, pol)]
         return out
 
     def calls(self, pred=None):
@@ -79,6 +97,12 @@ class Path:
 
     def returned(self):
         return self.outcome[1] if self.outcome and self.outcome[0] == 'return' else None
+
+
+def _names_only(test):
+    """a test over local names, constants and boolean / comparison operators only: its value is fixed by the current bindings"""
+    return all(isinstance(n, (ast.Name, ast.Constant, ast.BoolOp, ast.UnaryOp, ast.Compare, ast.boolop, ast.unaryop, ast.cmpop, ast.expr_context))
+               for n in ast.walk(test)) and any(isinstance(n, ast.Name) for n in ast.walk(test))
 
 
 class _Subst(ast.NodeTransformer):
@@ -274,6 +298,7 @@ class Explorer:
     def _bind(self, target, value, p, stmt):
         if isinstance(target, ast.Name):
             p.defs[target.id] = value
+            p.ver[target.id] = p.ver.get(target.id, 0) + 1
             if _impure(value, self.pure):
                 # keep the variable opaque: results of non-pure calls are objects, not values
                 p.env.pop(target.id, None)
@@ -380,15 +405,36 @@ class Explorer:
             self._record_calls(t, st.test, p, st)
             val = fold(t, self.scope) if self.fold_tests else UNKNOWN
             out = []
+            # a test over local names only that this path has already decided (same bindings) goes the same way again
+            dkey = None
+            if val is UNKNOWN and _names_only(st.test):
+                from .cfg import implied
+                opaque = {n.id: p.defs[n.id] for n in ast.walk(st.test) if isinstance(n, ast.Name) and n.id not in env and isinstance(p.defs.get(n.id), ast.expr)}
+                tdefs = subst(st.test, opaque) if opaque else None
+                fs = implied(t, True)
+                if len(fs) == 1:
+                    dkey = (fs[0].text, tuple(sorted((n.id, p.ver.get(n.id, 0)) for n in ast.walk(st.test) if isinstance(n, ast.Name))))
+                    if dkey in p.decided:
+                        val = p.decided[dkey] == fs[0].pol
+                        p.conds.append((t, bool(val), st.test))
+                        dkey = None
             if val is UNKNOWN or val:
                 a = p.fork()
                 if val is UNKNOWN:
                     a.conds.append((t, True, st.test))
+                    if dkey:
+                        a.decided[dkey] = fs[0].pol
+                    if _names_only(st.test) and tdefs is not None:
+                        a.conds_defs.append((tdefs, True))
                 out.extend(self._block(st.body, [a], done))
             if val is UNKNOWN or not val:
                 b = p.fork()
                 if val is UNKNOWN:
                     b.conds.append((t, False, st.test))
+                    if dkey:
+                        b.decided[dkey] = not fs[0].pol
+                    if _names_only(st.test) and tdefs is not None:
+                        b.conds_defs.append((tdefs, False))
                 out.extend(self._block(st.orelse, [b], done))
             return out
         if isinstance(st, (ast.For, ast.While)):
